@@ -49,6 +49,10 @@ CHECKS = {
          "The receive side is a TLA+ reference (Packet.tla: a datagram is accepted iff a session is found by its id and encryption kind, it decrypts under that session's receive key with the session's stored peer identity in the nonce and the complete received header as associated data, and its counter is fresh); TLC enumerates session mode x message shape x payload length x 14 mutation classes and checks AcceptOnlyAuthentic on the reference. For each case the harness captures genuine datagrams from the real encoder, builds the concrete mutant (bit flips per header field / ciphertext / tag, truncation, extension, header transplant, re-addressing to another session, reflection, another source node, replay), injects it into the real receive path of a real node and checks: delivered iff authentic, a rejected datagram leaves the targeted session's snapshot (send counter, receive window, exchanges, key fingerprints) unchanged, and the genuine datagrams are still delivered with identical payload; plus every single-bit flip of a genuine datagram per mode and shape.",
          "Trusted: the AEAD primitive; the snapshot hook. Unicast sessions with planted keys (CASE, PASE); group sessions only at the counter level (C04).",
          "TLA+ reference receiver enumerated by TLC vs injection into the real receive path with before/after snapshots", "DESIGN.md section 4 C03"),
+ "C10": ("model_checking",
+         "TLC proves exhaustively (2-3 exchange ids, 2 responder handlers, 4-5 peer datagrams with any exchange id / initiator flag / reliable flag, every handler policy reply / drop / hold, session removal) that the receive-slot machine transcribed from transport.rs / exchange.rs (RxSlot.tla) hands a message only to the owner of its exchange, opens an exchange only for an allowed first message, and - under fairness of the sweepers and the owners - always frees the single receive slot and ends with no exchange left (liveness: SlotEventuallyFree, EventuallyClean). TLC-simulated disturbance schedules (3 exchange ids, 7 datagrams, random policies) plus harness-made ones (unsecured strays, datagrams for a missing session) are replayed against a real device Matter with two policy-driven handlers; the peer is a raw injector holding the keys of two planted sessions; after the recovery horizon a fresh request on another session must be answered and no exchange may be left. TLC validates the recorded Inj / AppRx / Tx / Probe / End traces against Layer P (RxSlotProp.tla).",
+         "Trusted: TLC; liveness is decided on the model and observed on the real stack only as the bounded probe (answered within the recovery horizon, zero exchanges left). One device, two sessions, unreliable answers.",
+         "TLA+ model checking incl. liveness (TLC) + TLC-generated disturbance schedules replayed on the real stack + TLC trace validation", "DESIGN.md section 4 C10"),
 }
 
 NOT_YET = "check not built yet in this tree (see DESIGN.md section 7 for the build order); not claimed"
